@@ -7,9 +7,11 @@ PROPS = ["Props/C07.v"]
 def run(chk):
     V.generic_run(chk, PROPS,
         corr=[dict(name="check_code(Model/StackCheck.v, the verified checker, evaluated by vm_compute on the REAL compiler output -- hooks VerifLoadTrace / VerifCompile, optimizer off and on -- of every generated program (scope, core, fault, stack profiles) and every test-table string that compiles; mutants of real function bodies as negative control; each case carries the verdict and first offending pc predicted by the harness's Go mirror of the checker, which Coq confirms)",
-                   cmd="c07-check", stats="C07_corr_stats.json", n_quick=80, n_thorough=600)],
+                   cmd="c07-check", stats="C07_corr_stats.json", n_quick=80, n_thorough=600),
+              dict(name="vm(Model/VM.v, whose call_fn builds every frame from the typed arguments and nil slots, runs the real compiled code of generated frame-hygiene programs: functions whose locals are initialised from untyped constants and used type-sensitively, called after float64 / uint8 / int8 / bool / slice work at the same or deeper stack positions; output, success/failure and failing position must agree, optimizer on and off alternating)",
+                   cmd="c07-vmcorr", stats="C07_vmcorr_stats.json", n_quick=24, n_thorough=300)],
         system=[dict(name="stack-discipline programs vs Go toolchain; statements-only Eval leaves no values", cmd="c07-script", stats="C07_script_stats.json", n_quick=12, n_thorough=300,
-                     what="generated Go programs (10 functions each) with break / continue / return out of nested for / range / switch inside called functions while main holds live locals printed after every call, calls in for init/post, call statements dropping 1-3 results, multi-value assignment from calls and methods, variadic and spread calls, struct / map / slice literals, case lists, recursion 40 deep through loops: stdout compared with `go build` (int read as int32); generated statements-only snippets and the statements-only test-table strings through VM.Eval must return no residual values")],
+                     what="generated Go programs (10 functions each) with break / continue / return out of nested for / range / switch inside called functions while main holds live locals printed after every call, calls in for init/post, call statements dropping 1-3 results, multi-value assignment from calls and methods, variadic and spread calls, struct / map / slice literals, case lists, recursion 40 deep through loops: stdout compared with `go build` (int read as int32); generated statements-only snippets and the statements-only test-table strings through VM.Eval must return no residual values; frame hygiene: generated programs whose functions initialise locals from untyped constants (n := 7, k := 300, var q = 1) or declare them with var x T and use them type-sensitively (/, %, + past 255, * 1000000), called as statements, later operands, later arguments, loop bodies, && operands and from nested depths right after float64 / uint8 / int8 / string / bool / slice work (functions, methods, recursion) at the same stack positions, run through Load+Call and Eval by Eval on one VM against `go build`; structural probe through the real dispatch loop (hook VerifExec): hand-assembled dirty frames followed by a function returning its untouched slots -- every non-parameter slot must be nil on entry")],
         assumptions=[
             "the split-frame model (Model/VM.v: per-frame slots + operand list) refines the real flat stack of do.go/vm.go: an access below the frame's operands in the real VM is RStuck in the model; justified by the run-level correspondence vm-corr (C02) and by the dynamic differential c07-script, not proved",
             "Model/StackCheck.v effect table = do.go: for the opcodes of Model/VM.v this is the theorem (step_sound, per opcode); for the opcodes outside the VM model (NEWMAP, GETOK, DELETE, STRUCT, GLOBALSTRUCT, NEWSTRUCT, SETMETHOD) the effect is read off do.go by hand and exercised only by c07-script",
